@@ -149,6 +149,14 @@ pub fn check_case(case: &Case, st: &mut Stats) -> Check {
     if now != want {
         return Err(Fail::new(format!("{P} schema-differs when=immediately"), format!("reported {now:?}, created {want:?}")));
     }
+    // in a third of the cases under a page other than UTF-8: save, then move
+    // the database to UTF-8 (which can spell everything) and save again; the
+    // schema strings have to follow the code page
+    if !exotic && page.id != 65001 && (case.close / 3) % 3 == 1 {
+        pkg.flush().map_err(|e| Fail::new(format!("{P} unexpected-error op=Flush"), e.to_string()))?;
+        pkg.set_database_codepage(msi::CodePage::Utf8);
+        st.class("code-page-switched-after-a-save");
+    }
     // after save + reopen
     let bytes = match case.close % 3 {
         0 => {
